@@ -174,7 +174,9 @@ func (fc *FnCtx) callEffects(cc *ssa.CallCommon) effects {
 	}
 	callee := cc.StaticCallee()
 	if callee == nil {
-		eff.all = true
+		// a call through a function value: like every opaque call it can change only what is reachable through
+		// its arguments (A-ctx) - the same havoc the executor applies at the call site
+		addArgs()
 		return eff
 	}
 	if c := fc.contractFor(callee); c != nil {
@@ -524,6 +526,35 @@ func (fr *Frame) builtin(b *ssa.Builtin, cc *ssa.CallCommon, args []Val, resT ty
 			return fr.appendSlices(a, bb, cc.Args[0].Type())
 		}
 	case "copy":
+		// copy(dst, src) into a byte buffer this function owns: dst is the buffer itself or buf[lo:] of it. The
+		// buffer's SSA value is re-bound to its new content (value semantics, like an element write).
+		if args[0].S == "Bytes" && (args[1].S == "Bytes" || args[1].S == "String") {
+			var base ssa.Value = cc.Args[0]
+			lo := "0"
+			if sl, ok := base.(*ssa.Slice); ok && sl.High == nil && sl.Max == nil {
+				if _, isPtr := sl.X.Type().Underlying().(*types.Pointer); !isPtr {
+					base = sl.X
+					if sl.Low != nil {
+						lo = fr.get(sl.Low).T
+					}
+				}
+			}
+			if ownedSlice(base, 0) {
+				cur := fr.get(base)
+				bs := "(b_s " + cur.T + ")"
+				src, _ := asString(args[1])
+				room := "(- (str.len " + bs + ") " + lo + ")"
+				n := fc.def("copyn", "Int", ite("(<= (str.len "+src+") "+room+")", "(str.len "+src+")", room))
+				fc.safety(reach, or("(< "+lo+" 0)", "(> "+lo+" (str.len "+bs+"))"), "slice-bounds", cc)
+				nt := "(mkB false (str.++ (str.substr " + bs + " 0 " + lo + ") (str.substr " + src + " 0 " + n + ") (str.substr " + bs + " (+ " + lo + " " + n + ") (- (str.len " + bs + ") (+ " + lo + " " + n + ")))))"
+				cur.T = fc.B.Define("copied_"+base.Name(), "Bytes", nt)
+				cur.VA = nil
+				fr.addRebind(base, cur)
+				return Val{S: "Int", T: n, Typ: types.Typ[types.Int]}
+			}
+			fc.unsupported("#own: %s copies into a byte slice it does not own (at %s)", fr.fn.Name(), posStr(fc.W, cc.Pos()))
+			return fc.freshVal(types.Typ[types.Int], "copy")
+		}
 		fc.unsupported("builtin copy in %s", fr.fn.Name())
 		return fc.freshVal(types.Typ[types.Int], "copy")
 	case "delete":
